@@ -11,6 +11,7 @@ Local Open Scope Z_scope.
    + - ~ and of shifts included) *)
 Theorem C01_common_type : forall a b, m_common a b = uac a b.
 Proof. exact m_common_is_uac. Qed.
+Print Assumptions C01_common_type.
 Theorem C01_typing : forall e, m_type e = type_of e.
 Proof. exact m_type_is_c11. Qed.
 Print Assumptions C01_typing.
@@ -52,8 +53,10 @@ Print Assumptions C01_shift.
 
 Theorem C01_neg : forall t a s v, big t -> R t a (rax s) -> arith_result t (- a) = Some v -> done s (gen_unop Neg t) t v.
 Proof. exact neg_codegen_ok. Qed.
+Print Assumptions C01_neg.
 Theorem C01_bitnot : forall t a s, big t -> R t a (rax s) -> done s (gen_unop BitNot t) t (conv t (Z.lnot a)).
 Proof. exact not_codegen_ok. Qed.
+Print Assumptions C01_bitnot.
 Theorem C01_lognot : forall t a s, in_range t a = true -> R t a (rax s) -> done s (gen_unop LogNot t) I32 (b2z (a =? 0)).
 Proof. exact lognot_codegen_ok. Qed.
 Print Assumptions C01_lognot.
@@ -64,3 +67,4 @@ Example C01_nonvacuous :
   eval_bin_arith Div I32 (-7) 2 = Some (-3) /\ big I32 /\
   uac I8 U32 = U32 /\ uac I64 U32 = I64 /\ uac U64 I64 = U64.
 Proof. unfold R, big. vm_compute. repeat split; auto; discriminate. Qed.
+Print Assumptions C01_nonvacuous.
